@@ -17,6 +17,11 @@ MCLines == { L("k", K_a, 0, 0, 0), L("k", K_a, 2, 0, 0), L("k", K_a, 0, 2, 0), L
              L("kv", K_a, 0, 0, 0), L("kv", K_a, 0, 0, 1), L("kv", K_b, 0, 0, 0),
              L("blank", <<>>, 0, 0, 0), L("ws", <<>>, 2, 0, 0) }
 
+CONSTANT Star   \* TRUE: the small alphabet for the regex whose group may be empty
+StarLines == { L("ide", <<>>, 0, 0, 0), L("ide", <<>>, 2, 0, 1), L("ide", K_a, 0, 0, 0), L("ide", K_a, 0, 0, 2),
+               L("id", K_a, 0, 0, 0), L("k", K_a, 0, 0, 0), L("blank", <<>>, 0, 0, 0) }
+AllLines == MCLines
+MCLinesSel == IF Star THEN StarLines ELSE AllLines
 MCConfigs == { [kind |-> "unique", dir |-> "asc", sp |-> "", pat |-> p, fmt |-> "lex",
-                lp |-> "any", op |-> "==", n |-> 0] : p \in {"none", "group", "plain"} }
+                lp |-> "any", op |-> "==", n |-> 0] : p \in (IF Star THEN {"gstar"} ELSE {"none", "group", "plain"}) }
 =============================================================================
